@@ -682,6 +682,46 @@ def doc_j(M, sd, use, gamma):
     return tot / M[-1][-1]
 
 
+class _GuardNp:
+    """stand-in for the module global `np` of ode.py while `j_from_ode` runs: 1-D `np.empty(n)` buffers become views of a
+    longer NaN-filled array, so that a kernel writing behind a too-short destination (kernels have no bounds checks)
+    lands in the guard zone, where it is seen, instead of corrupting the heap of the check process"""
+    GUARD = 512
+
+    def __init__(self, real):
+        self._real, self.bufs = real, []
+
+    def __getattr__(self, name):
+        return getattr(self._real, name)
+
+    def empty(self, shape, *args, **kwargs):
+        res = self._real.empty(shape, *args, **kwargs)   # same errors for the same arguments
+        if res.ndim == 1 and res.dtype == self._real.float64:
+            buf = self._real.full(res.shape[0] + self.GUARD, self._real.nan)
+            self.bufs.append((buf, res.shape[0]))
+            return buf[:res.shape[0]]
+        return res
+
+
+def guarded_j(ck: Check, ode_mod, np, arr, sd, use, gamma, case):
+    """`j_from_ode` with guard zones behind its scratch buffers; an overrun is reported with the input"""
+    real_np, guard = ode_mod.np, _GuardNp(ode_mod.np)
+    ode_mod.np = guard
+    try:
+        return ode_mod.j_from_ode(arr, sd, use, gamma)
+    except IndexError as e:   # only under NUMBA_BOUNDSCHECK=1 (the C13 re-run of this stream)
+        ck.spec(False, "j_oob", f"IndexError in j_from_ode (rows={arr.shape[0]}, cols={arr.shape[1] if arr.ndim == 2 else '?'}, "
+                f"state_dim={sd}, use_state_dims={use}): {e}", case)
+        return float("nan")
+    finally:
+        ode_mod.np = real_np
+        for buf, n in guard.bufs:
+            over = int(np.sum(~np.isnan(buf[n:])))
+            ck.spec(over == 0, "j_dest_overrun", f"j_from_ode: the kernel wrote {over} value(s) behind its {n}-element "
+                    f"destination (rows={arr.shape[0]}, cols={arr.shape[1] if arr.ndim == 2 else '?'}, state_dim={sd}, "
+                    f"use_state_dims={use})", case)
+
+
 def run_j(ck: Check, ode_mod, np, ops, expect, real_jobs):
     kernel = getattr(ode_mod, "__j_from_ode_compute")
     for stream, M, sd, use, gamma in j_cases(ck):
@@ -689,7 +729,7 @@ def run_j(ck: Check, ode_mod, np, ops, expect, real_jobs):
         arr = np.array([[float(v) for v in r] for r in M], dtype=float).reshape(len(M), len(M[0]) if M else sd + 2)
         with np.errstate(all="ignore"):
             try:
-                j = float(ode_mod.j_from_ode(arr, sd, use, float(gamma)))
+                j = float(guarded_j(ck, ode_mod, np, arr, sd, use, float(gamma), {"M": fmat(M), "sd": sd, "use": use}))
             except ValueError:
                 j = "err"
         t = float(ode_mod.t_from_ode(arr)) if len(M) else None
@@ -713,7 +753,7 @@ def run_j(ck: Check, ode_mod, np, ops, expect, real_jobs):
         if res.shape[0] < 2 or not np.isfinite(res).all():
             continue   # (a non-finite entry is already a violation of the row specification)
         for use, gamma in ((-1, 0.1), (1, 0.5)):
-            j = float(ode_mod.j_from_ode(res, n, use, gamma))
+            j = float(guarded_j(ck, ode_mod, np, res, n, use, gamma, case))
             M = [[Fraction(float(v)) for v in r] for r in res]
             ref = doc_j(M, n, use, Fraction(gamma))
             ok = math.isfinite(j) and j >= 0 and abs(j - float(ref)) <= 1e-9 * max(1.0, abs(float(ref)))
